@@ -238,10 +238,26 @@ def _norm_node(n):
                     acc = r
                 if ok:
                     consts = [C(acc)]
+            neg = False
+            if op == "*":
+                stripped = []
+                for x in rest:
+                    if x[0] == "un" and x[1] == "-":
+                        neg = not neg
+                        stripped.append(x[2])
+                    else:
+                        stripped.append(x)
+                rest = _flatten(op, stripped)
+                if consts and is_num_const(consts[0]) and len(consts) == 1 and consts[0][1] < 0:
+                    consts = [C(-consts[0][1])]
+                    neg = not neg
+                if consts == [C(1)] and rest:
+                    consts = []
             items = sorted(rest + consts, key=_key)
-            if len(items) == 1:
-                return items[0]
-            return ("nary", op, tuple(items))
+            res = items[0] if len(items) == 1 else ("nary", op, tuple(items))
+            if neg:
+                return _norm_node(("un", "-", res))
+            return res
         return n
     if k == "un":
         op, a = n[1], n[2]
@@ -406,3 +422,92 @@ def root_of(e):
     while isinstance(e, tuple) and e and e[0] in ("f", "sub", "slice"):
         e = e[1]
     return e
+
+
+# ----------------------------------------------------------------------------- tolerant comparison (formula conformance)
+def first_diff(want, got, tol: float = 1e-12, path: str = ""):
+    """None if equal up to relative tolerance on float constants, else (path, kind, want, got);
+    kind: 'const' | 'function' | 'operator' | 'operand' | 'shape'"""
+    if want == got:
+        return None
+    if not isinstance(want, tuple) or not isinstance(got, tuple):
+        return (path, "operand", want, got)
+    if is_num_const(want) and is_num_const(got):
+        a, b = float(want[1]), float(got[1])
+        if a == b or abs(a - b) <= tol * max(abs(a), abs(b)):
+            return None
+        return (path, "const", want, got)
+    # a missing / extra wrapping function is a positively identified deviation
+    if want and want[0] == "call" and len(want[2]) == 1 and not (got and got[0] == "call" and got[1] == want[1]) \
+            and first_diff(want[2][0], got, tol) is None:
+        return (path, "function", want[1], "(missing)")
+    if got and got[0] == "call" and len(got[2]) == 1 and not (want and want[0] == "call" and want[1] == got[1]) \
+            and first_diff(want, got[2][0], tol) is None:
+        return (path, "function", "(none)", got[1])
+    if want and got and want[0] == "nary" and got[0] != "nary" and any(first_diff(a, got, tol) is None for a in want[2]):
+        return (path, "operand", ("missing operand(s) of", want[1]), got)
+    if not want or not got or want[0] != got[0]:
+        return (path, "shape" if (want and got and want[0] in ("nary", "bin", "call", "un") and got[0] in ("nary", "bin", "call", "un")) else "operand", want, got)
+    k = want[0]
+    if k == "call":
+        if want[1] != got[1]:
+            return (path, "function", want[1], got[1])
+        if len(want[2]) != len(got[2]):
+            return (path, "shape", want, got)
+        for i, (a, b) in enumerate(zip(want[2], got[2])):
+            d = first_diff(a, b, tol, f"{path}/arg{i}")
+            if d:
+                return d
+        if (want[3] if len(want) > 3 else ()) != (got[3] if len(got) > 3 else ()):
+            return (path, "operand", want, got)
+        return None
+    if k == "nary":
+        if want[1] != got[1]:
+            return (path, "operator", want[1], got[1])
+        if len(want[2]) != len(got[2]):
+            short, long_ = (got[2], want[2]) if len(got[2]) < len(want[2]) else (want[2], got[2])
+            rest_ = list(long_)
+            allm = True
+            for a in short:
+                hit = [b for b in rest_ if first_diff(a, b, tol) is None]
+                if hit:
+                    rest_.remove(hit[0])
+                else:
+                    allm = False
+            if allm:
+                return (path, "operand", ("missing" if len(got[2]) < len(want[2]) else "extra"), tuple(rest_))
+            return (path, "shape", want, got)
+        # operands are sorted by repr; float constants may sort differently: match greedily
+        rest = list(got[2])
+        for a in want[2]:
+            hit = None
+            for b in rest:
+                if first_diff(a, b, tol) is None:
+                    hit = b
+                    break
+            if hit is None:
+                # report against the structurally closest operand (same kind)
+                cands = [b for b in rest if isinstance(b, tuple) and b[:1] == a[:1]]
+                return first_diff(a, cands[0], tol, f"{path}/{k}{want[1]}") if len(cands) == 1 else (path, "operand", a, tuple(rest))
+            rest.remove(hit)
+        return None
+    if k in ("bin", "un", "cmp"):
+        if want[1] != got[1]:
+            return (path, "operator", want[1], got[1])
+    if len(want) != len(got):
+        return (path, "shape", want, got)
+    for i, (a, b) in enumerate(zip(want[1:], got[1:])):
+        if isinstance(a, tuple) and isinstance(b, tuple) and a and b and isinstance(a[0], str):
+            d = first_diff(a, b, tol, f"{path}/{k}{i}")
+            if d:
+                return d
+        elif isinstance(a, tuple) and isinstance(b, tuple):
+            if len(a) != len(b):
+                return (path, "shape", want, got)
+            for j, (x, y) in enumerate(zip(a, b)):
+                d = first_diff(x, y, tol, f"{path}/{k}{i}.{j}") if isinstance(x, tuple) else (None if x == y else (path, "operand", x, y))
+                if d:
+                    return d
+        elif a != b:
+            return (path, "operand", a, b)
+    return None
